@@ -238,32 +238,39 @@ def ppdValid (ppd : Rat) : Bool :=
 
 def optRows (b : Bool) (N : Nat) : Option Nat := if b then some N else none
 
+/-- `if box is None: box = float_dtype(1.0)` -/
+def boxOf : Option Rat → Rat
+  | none => 1
+  | some b => b
+
+/-- the allocation of the requested arrays, the kernel call and the returned dict of `unpack_pids`, after
+`box` and `ppd` have been defaulted / validated -/
+def unpackPidsCore (packed : List (BitVec 64)) (boxR : Rat) (ppdI : Int) (sel : PidSel) :
+    Except Fault (List (String × Nat × Writes)) :=
+  let N := packed.length
+  let bufs : PidBufs := ⟨optRows sel.pid N, optRows sel.lagrPos N, optRows sel.tagged N,
+                         optRows sel.density N, optRows sel.lagrIdx N⟩
+  match kernelPids packed boxR ppdI bufs with
+  | .ok [wIdx, wPos, wTag, wDen, wPid] =>
+    .ok ((if sel.pid then [("pid", N, wPid)] else []) ++
+         (if sel.lagrPos then [("lagr_pos", N, wPos)] else []) ++
+         (if sel.lagrIdx then [("lagr_idx", N, wIdx)] else []) ++
+         (if sel.tagged then [("tagged", N, wTag)] else []) ++
+         (if sel.density then [("density", N, wDen)] else []))
+  | .ok _ => .error .rejected   -- not reachable (Props: unpackPids_spec)
+  | .error e => .error e
+
 /-- `unpack_pids(packed, box, ppd, pid, lagr_pos, tagged, density, lagr_idx, float_dtype)`:
 the returned dict as an association list in insertion order (pid, lagr_pos, lagr_idx, tagged, density). -/
 def unpackPids (packed : List (BitVec 64)) (box ppd : Option Rat) (sel : PidSel) :
     Except Fault (List (String × Nat × Writes)) :=
   if sel.lagrPos && (box.isNone || ppd.isNone) then .error .rejected
   else
-    let N := packed.length
-    let ppdI : Except Fault Int :=
-      match ppd with
-      | none => .ok 1
-      | some q => if ppdValid q then .ok (rhe q) else .error .rejected
-    match ppdI with
-    | .error e => .error e
-    | .ok ppdI =>
-      let boxR : Rat := match box with | none => 1 | some b => b
-      let bufs : PidBufs := ⟨optRows sel.pid N, optRows sel.lagrPos N, optRows sel.tagged N,
-                             optRows sel.density N, optRows sel.lagrIdx N⟩
-      match kernelPids packed boxR ppdI bufs with
-      | .ok [wIdx, wPos, wTag, wDen, wPid] =>
-        .ok ((if sel.pid then [("pid", N, wPid)] else []) ++
-             (if sel.lagrPos then [("lagr_pos", N, wPos)] else []) ++
-             (if sel.lagrIdx then [("lagr_idx", N, wIdx)] else []) ++
-             (if sel.tagged then [("tagged", N, wTag)] else []) ++
-             (if sel.density then [("density", N, wDen)] else []))
-      | .ok _ => .error .rejected   -- not reachable (Props: unpackPids_spec)
-      | .error e => .error e
+    match ppd with
+    | some q =>
+      if ppdValid q then unpackPidsCore packed (boxOf box) (rhe q) sel   -- `box = float_dtype(1.0)` when absent
+      else .error .rejected
+    | none => unpackPidsCore packed (boxOf box) 1 sel                    -- `ppd = 1` when absent
 
 /-- the `unpack_bits` argument of `empty_bitpacked_arrays` -/
 inductive UnpackBits where
